@@ -27,7 +27,7 @@
 //! <table> = `*`: the model decides every frame itself with the concrete decoders (modern config, remote AS 65002), or
 //! <table> = `off:len:v,...` decode verdicts (computed by the generator with the real
 //! Message::from_octets, the model treats the per-type decoders as an abstract function given by
-//! this table): e err, p panic, k keepalive, u update, n notification, A open (AS allowed),
+//! this table): e err, p panic, k keepalive, u update, n notification, r route refresh, A open (AS allowed),
 //! B open (AS not allowed), C open (allowed AS, ADD-PATH capability does not parse).
 use crate::common::*;
 use bytes::Bytes;
@@ -110,7 +110,7 @@ fn parse_table(s: &str, total: usize) -> Option<Vec<(usize, usize, char)>> {
         let num = |x: &str| -> Option<usize> { if x.is_empty() || x.len() > 6 || !x.bytes().all(|b| b.is_ascii_digit()) { None } else { x.parse().ok() } };
         let (o, l) = (num(p[0])?, num(p[1])?);
         let v = p[2].chars().next().unwrap();
-        if !"epkunvABC".contains(v) || o + l > total { return None; }
+        if !"epkunvABCr".contains(v) || o + l > total { return None; }
         out.push((o, l, v));
     }
     Some(out)
@@ -219,7 +219,7 @@ fn verdict_of(frame: &[u8]) -> char {
         Ok(BgpMsg::Update(_)) => 'u',
         // a version-error NOTIFICATION (2/1) raises NotifMsgVerErr, any other one NotifMsg
         Ok(BgpMsg::Notification(n)) => if frame.len() >= 21 && frame[19] == 2 && frame[20] == 1 { let _ = n; 'v' } else { 'n' },
-        Ok(BgpMsg::RouteRefresh(_)) => 'e',
+        Ok(BgpMsg::RouteRefresh(_)) => 'r',
         Ok(BgpMsg::Open(o)) => {
             if o.my_asn() != inetnum::asn::Asn::from_u32(REMOTE_AS) { 'B' }
             else if o.addpath_families_vec().is_err() { 'C' } else { 'A' }
@@ -266,24 +266,26 @@ fn dec_reference(frame: &[u8]) -> Option<&'static str> {
         2 => if len < 23 || len > frame.len() { Some("err") } else { None },
         3 => if len != frame.len() || len < 21 { Some("err") } else if frame[19] == 2 && frame[20] == 1 { Some("v") } else { Some("n") },
         4 => if len == 19 && frame.len() == 19 { Some("k") } else { Some("err") },
-        // a well-formed ROUTE-REFRESH (RFC 2918: 23 octets; RFC 7313 adds longer ones) is a BGP message RFC 4271 does
-        // not know: the property leaves its fate free (refused by the decoder = the session ends with an error, or
-        // handed to the FSM, which ignores it) – judged by `dec_rr_ok`
-        5 => if len != frame.len() || len < 23 { Some("err") } else { None },
+        // a well-formed ROUTE-REFRESH of RFC 2918 (exactly 23 octets) is recognised (K13 repaired: F36); RFC 7313 adds
+        // longer ones, which RFC 4271 / 2918 do not know: their fate is left free (refused, or recognised)
+        5 => if len != frame.len() || len < 23 { Some("err") } else if len == 23 { Some("r") } else { None },
         _ => Some("err"),
     }
 }
 
-/// a frame whose fate the property leaves free: a well-formed ROUTE-REFRESH (see `dec_reference`)
+/// a well-formed ROUTE-REFRESH (see `dec_reference`): RFC 2918's has exactly 23 octets and must be delivered (since the
+/// repair of K13); the fate of a longer one (RFC 7313) is left free
 fn is_wellformed_rr(f: &[u8]) -> bool {
     f.len() >= 23 && f[..16] == [0xffu8; 16] && u16::from_be_bytes([f[16], f[17]]) as usize == f.len() && f[18] == 5
 }
+fn is_rfc2918_rr(f: &[u8]) -> bool { is_wellformed_rr(f) && f.len() == 23 }
 
 /// How the frame at the head of `rest` must fare, from RFC 4271 section 4.1 and the property text alone.
 /// The property fixes the outcome only for (a) complete BGP messages (delivered, exactly their bytes), (b) a
 /// length field below 19 and (c) a wrong marker (error, never a panic, never delivered). It does not say WHEN a bad
 /// header is refused (at once, or when the announced octets have arrived), nothing about frames longer than RFC
-/// 4271's 4096 octets, and nothing about ROUTE-REFRESH (RFC 2918) – there either outcome is accepted.
+/// 4271's 4096 octets, and nothing about the longer ROUTE-REFRESH of RFC 7313 – there either outcome is accepted.  A
+/// ROUTE-REFRESH of RFC 2918 (23 octets) is a BGP message: it must be delivered (K13 repaired).
 #[derive(Clone, Copy, PartialEq, Eq, Debug)]
 enum Fate { Deliver, Refuse, Either, WaitFor(usize), WaitOrRefuse(usize) }
 
@@ -302,6 +304,7 @@ fn head_fate(rest: &[u8]) -> (Fate, usize) {
     }
     let f = &rest[..len];
     if bad_marker { return (Fate::Refuse, len); }
+    if is_rfc2918_rr(f) { return (Fate::Deliver, len); }
     if len > 4096 || is_wellformed_rr(f) { return (Fate::Either, len); }
     match std::panic::catch_unwind(|| real_decode(f).is_ok()) {
         Ok(true) => (Fate::Deliver, len),
